@@ -59,6 +59,12 @@ def orEmpty : Option Str → Str
   | some s => s
   | none => []
 
+/-- `element.get('name', fallback)` -/
+def nameOr (a b : Option Str) : Option Str :=
+  match a with
+  | some n => some n
+  | none => b
+
 /-- an f-string renders `None` as `None` -/
 def orNone : Option Str → Str
   | some s => s
@@ -250,7 +256,7 @@ def parseField (defs : FieldDefs) (e : FieldEl) : Except Err FieldDef :=
     if d.isEmpty then .ok plain                       -- `element.get('def', False)` is falsy for ''
     else match dictGet? defs (some d) with            -- `copy.deepcopy(FieldDef.Definitions[def])`
       | none => .error .key
-      | some fd => .ok { fd with name := match e.name with | some n => some n | none => fd.name }
+      | some fd => .ok { fd with name := nameOr e.name fd.name }
 
 /-- `Parser._parse_fields` -/
 def parseFields (defs : FieldDefs) (es : List FieldEl) : Except Err (List FieldDef) := mapE (parseField defs) es
@@ -381,50 +387,63 @@ def countCls (endian : Option Str) : Str :=
 def kwEnum : Str := cp "enum:"
 def kwRecord : Str := cp "record:"
 
-/-- `FieldDef._field_context` + `get_codegen_context` + the `Field(…)` line and the annotation line of the templates -/
-def genField (d : Definitions) (f : FieldDef) : Except Err FieldDecl := do
-  if (f.ty.isNone && f.ref.isNone) || (f.ty.isSome && f.ref.isSome) then throw .value
-  let (type_, hint) ←
-    (match f.ref, f.ty with
-     | some r, _ =>
-        if !r.isEmpty then pure (r, r)
-        else (throw .attr : Except Err (Str × Str))        -- `None.startswith`
-     | none, none => throw .value                          -- unreachable (first test)
-     | none, some t =>
-        if isPrefix kwEnum t then
-          let enumName := removeAll kwEnum t
-          match dictGet? d.enums enumName with
-          | none => throw .value
-          | some e => do
-              let et ← typeDef e.ty
-              pure (et.cls, enumName)
-        else if isPrefix kwRecord t then
-          let rec_ := removeAll kwRecord t
-          match dictGet? d.records rec_ with
-          | none => throw .value
-          | some r => pure (r.name, r.name)
-        else do
-          let e ← typeDef (some t)
-          pure (e.cls, e.hint))
+/-- the `type_, hint` part of `FieldDef._field_context` -/
+def typeAndHint (d : Definitions) (f : FieldDef) : Except Err (Str × Str) :=
+  match f.ref, f.ty with
+  | some r, _ =>
+      if !r.isEmpty then .ok (r, r)
+      else .error .attr                                   -- `if self.ref:` is falsy for '', then `None.startswith`
+  | none, none => .error .value                           -- unreachable (excluded by the first test of `genField`)
+  | none, some t =>
+      if isPrefix kwEnum t then
+        let enumName := removeAll kwEnum t
+        match dictGet? d.enums enumName with
+        | none => .error .value
+        | some e =>
+          match typeDef e.ty with
+          | .error err => .error err
+          | .ok et => .ok (et.cls, enumName)
+      else if isPrefix kwRecord t then
+        let rec_ := removeAll kwRecord t
+        match dictGet? d.records rec_ with
+        | none => .error .value
+        | some r => .ok (r.name, r.name)
+      else
+        match typeDef (some t) with
+        | .error err => .error err
+        | .ok e => .ok (e.cls, e.hint)
+
+/-- the array wrapping and the `(length=…)` suffix; second component: how many `list[…]` the hint gets -/
+def fieldTyExpr (f : FieldDef) (type_ : Str) : TyExpr × Nat :=
   let endian := countCls f.endian
-  let (ty, depth) : TyExpr × Nat :=
+  let base : TyExpr × Nat :=
     match f.array with
     | none => (.cls type_, 0)
     | some a =>
       if a == cp "double" then (.array (.array (.cls type_) (.cls endian)) (.cls endian), 2)
       else (.array (.cls type_) (.cls endian), 1)
   let isFixedLenStr := f.ty == some (fixedId false) || f.ty == some (fixedId true)
-  let ty := if isFixedLenStr then TyExpr.callLen ty (orNone f.length) else ty
-  let r := ty.render
-  let quote := isInfix (cp "Char") r || isInfix (cp "String") r
-  pure {
-    name := orEmpty f.name
-    ty := ty
-    dflt := match f.dflt with
-      | none => none
-      | some v => some ⟨quote, htmlEscape v⟩
-    hintBase := hint
-    hintDepth := depth }
+  (if isFixedLenStr then TyExpr.callLen base.1 (orNone f.length) else base.1, base.2)
+
+/-- `'Char' in type_ or 'String' in type_` -/
+def quoteOf (ty : TyExpr) : Bool := isInfix (cp "Char") ty.render || isInfix (cp "String") ty.render
+
+/-- `FieldDef._field_context` + `get_codegen_context` + the `Field(…)` line and the annotation line of the templates -/
+def genField (d : Definitions) (f : FieldDef) : Except Err FieldDecl :=
+  if (f.ty.isNone && f.ref.isNone) || (f.ty.isSome && f.ref.isSome) then .error .value
+  else
+    match typeAndHint d f with
+    | .error err => .error err
+    | .ok (type_, hint) =>
+      let tyd := fieldTyExpr f type_
+      .ok {
+        name := orEmpty f.name
+        ty := tyd.1
+        dflt := match f.dflt with
+          | none => none
+          | some v => some ⟨quoteOf tyd.1, htmlEscape v⟩
+        hintBase := hint
+        hintDepth := tyd.2 }
 
 def genRecord (d : Definitions) (r : RecordDef) : Except Err RecordDecl := do
   let fs ← mapE (genField d) r.fields
@@ -754,7 +773,7 @@ def resolveDef (s : Spec) (f : FieldEl) : Except Err FieldEl :=
   | none => .ok f
   | some d => match findDef? s d with
     | none => .error .key
-    | some base => .ok { base with name := match f.name with | some n => some n | none => base.name }
+    | some base => .ok { base with name := nameOr f.name base.name }
 
 /-- split `kind:name` -/
 def splitColon : Str → Str × Option Str
@@ -794,22 +813,32 @@ def docElemTy (s : Spec) (f : FieldEl) : Except Err (Ty × Option PrimKind) :=
     you can control the endian of this length by adding the 'endian' attribute" -/
 def docCount (f : FieldEl) : Ty := .prim (if f.endian == some (cp "big") then .uint2be else .uint2)
 
-def denoteField (s : Spec) (f0 : FieldEl) : Except Err FieldS := do
-  let f ← resolveDef s f0
-  let (t, dom) ← docElemTy s f
-  let name ← (match f.name with | some n => pure n | none => throw .value : Except Err Str)
-  match f.array with
-  | some _ =>
-      match f.dflt with
-      | some _ => throw .value
-      | none => pure ⟨name, .array t (docCount f), none⟩
-  | none =>
-      match f.dflt, dom with
-      | none, _ => pure ⟨name, t, none⟩
-      | some v, some k => do
-          let d ← docValue k v
-          pure ⟨name, t, some d⟩
-      | some _, none => throw .value
+/-- a field whose `def=` reference has been resolved -/
+def denoteResolved (s : Spec) (f : FieldEl) : Except Err FieldS :=
+  match docElemTy s f with
+  | .error e => .error e
+  | .ok (t, dom) =>
+    match f.name with
+    | none => .error .value
+    | some name =>
+      match f.array with
+      | some _ =>
+        (match f.dflt with
+         | some _ => .error .value
+         | none => .ok ⟨name, .array t (docCount f), none⟩)
+      | none =>
+        match f.dflt, dom with
+        | none, _ => .ok ⟨name, t, none⟩
+        | some v, some k =>
+          (match docValue k v with
+           | .error e => .error e
+           | .ok d => .ok ⟨name, t, some d⟩)
+        | some _, none => .error .value
+
+def denoteField (s : Spec) (f0 : FieldEl) : Except Err FieldS :=
+  match resolveDef s f0 with
+  | .error e => .error e
+  | .ok f => denoteResolved s f
 
 def denoteEnum (e : EnumEl) : Except Err EnumS := do
   match e.ty.bind docPrim with
